@@ -10,6 +10,7 @@ CONSTANTS
   Rfc0028 = FALSE
   NBlocks = 10
   TsSteps = {1, 2, 3}
+  ForceT = TRUE
   Emit = TRUE
 INVARIANT EmitCtx
 CHECK_DEADLOCK FALSE
